@@ -1,13 +1,25 @@
 package tree
 
+import "strings"
+
 func getListEntrySortFunc(parent Entry) func(a, b Entry) int {
 	// return the comparison function
 	return func(a, b Entry) int {
 		keys := parent.GetSchemaKeys()
 		var cmpResult int
 		for _, v := range keys {
-			aLvSlice := a.getChildren()[v].GetHighestPrecedence(LeafVariantSlice{}, false)
-			bLvSlice := b.getChildren()[v].GetHighestPrecedence(LeafVariantSlice{}, false)
+			aKey, aOk := a.getChildren()[v]
+			bKey, bOk := b.getChildren()[v]
+			if !aOk || !bOk {
+				// an entry may be in the tree without its key leaves (e.g. built from a read
+				// of single leaves): order by the key values that are part of the path
+				return strings.Compare(strings.Join(a.Path(), "/"), strings.Join(b.Path(), "/"))
+			}
+			aLvSlice := aKey.GetHighestPrecedence(LeafVariantSlice{}, false)
+			bLvSlice := bKey.GetHighestPrecedence(LeafVariantSlice{}, false)
+			if len(aLvSlice) == 0 || len(bLvSlice) == 0 {
+				return strings.Compare(strings.Join(a.Path(), "/"), strings.Join(b.Path(), "/"))
+			}
 
 			aEntry := aLvSlice[0]
 			bEntry := bLvSlice[0]
